@@ -16,19 +16,25 @@ STRENGTHENED = {
 }
 def main():
     res = {}
+    dirs = {}
     for f in sorted(glob.glob(os.path.join(V, 'scratch/seeds/*.json'))):
-        m = re.match(r'(C\d+)_([AB])(\d*)\.json', os.path.basename(f))
+        m = re.match(r'(C\d+)(r\d+)?_([AB])(\d*)\.json', os.path.basename(f))
         if not m:
             continue
+        rnd = m.group(2) or ''
         try:
             d = json.load(open(f))
         except Exception:
             continue
-        key = '%s-%s' % (m.group(1), m.group(2))
-        res.setdefault(key, []).append((m.group(3) or '1', d))
+        key = '%s-%s%s' % (m.group(1), m.group(3), rnd[1:] if rnd else '')
+        res.setdefault(key, []).append((m.group(4) or '1', d))
+        dirs[key] = m.group(1) + rnd
     for key, runs in sorted(res.items()):
         prop, x = key.split('-')
-        src = '/tmp/seed/%s/seed_out' % prop
+        x = x[0]
+        src = '/tmp/seed/%s/seed_out' % dirs[key]
+        if not os.path.isdir(src) and os.path.exists(os.path.join(V, 'seeded', key, 'meta.json')):
+            continue                         # (already collected; the scratch worktree is gone)
         if not os.path.exists(os.path.join(src, x + '.diff')):
             continue
         runs.sort()
